@@ -1,2 +1,7 @@
 import PlcProofs.Lemmas.Lex
+import PlcProofs.Lemmas.SemTok
+import PlcProofs.Lemmas.Lsp
 import PlcProofs.Props.C05
+import PlcProofs.Props.C11
+import PlcProofs.Props.C12
+import PlcProofs.Props.C15
